@@ -13,10 +13,11 @@ if [ "$P" != "-" ]; then
   git -C "$WT" checkout -q -- . && git -C "$WT" clean -fdq
   git -C "$WT" apply "$P" || { echo "patch does not apply to $WT"; exit 2; }
 fi
-sed "s#=> /repo#=> $WT#" /verif/harness/go.mod > "$S/go.mod"
-cp /verif/harness/go.sum "$S/go.sum"
+H="${HARNESS_DIR:-/verif/harness}"   # a frozen copy of the harness may be named (long matrix runs while the harness is being edited)
+sed "s#=> /repo#=> $WT#" "$H/go.mod" > "$S/go.mod"
+cp "$H/go.sum" "$S/go.sum"
 cp /verif/known_findings.json "$S/root/"
-cd /verif/harness || exit 2
+cd "$H" || exit 2
 for id in "$@"; do
   FL=(); [ "$id" = "C11" ] && FL=(-race)
   if ! go build -modfile="$S/go.mod" -tags verif "${FL[@]}" -o "$S/bin/vcheck-$id" ./cmd/vcheck 2>"$S/build.log"; then
